@@ -55,6 +55,21 @@ inductive Res (α : Type) where
 def new? (ms ctr node : Nat) : Option Nat :=
   if durSecs ms ≤ TIMESTAMP_MAX then some (pack ms ctr node) else none
 
+/-- `DATACAKE_EPOCH` in milliseconds since the UNIX epoch (1 January 2023, 01:01:01 UTC). -/
+def DATACAKE_EPOCH_MS : Nat := 1672534861000
+
+/-- `get_datacake_timestamp` for a system clock reading `unixMs` (ms since the UNIX epoch): the time
+since the datacake epoch at 4 ms resolution.  A reading BEFORE the epoch reads as the epoch itself
+(fix D28; the pinned code subtracted the `Duration`s and panicked on the underflow). -/
+def wallOfUnix (unixMs : Nat) : Nat :=
+  let d := unixMs - DATACAKE_EPOCH_MS          -- truncated subtraction: `saturating_sub`
+  partsAsDuration (durSecs d) (durFrac d)
+
+/-- The pinned conversion: `none` = panic ("overflow when subtracting durations"). -/
+def wallOfUnixLegacy (unixMs : Nat) : Option Nat :=
+  if unixMs < DATACAKE_EPOCH_MS then none
+  else some (partsAsDuration (durSecs (unixMs - DATACAKE_EPOCH_MS)) (durFrac (unixMs - DATACAKE_EPOCH_MS)))
+
 /-- `HLCTimestamp::send`, with the wall-clock reading `wall` (ms, a multiple of 4) as argument.
 Returns the new clock value (which is also the returned stamp). -/
 def send (c wall : Nat) : Except Err Nat :=
